@@ -340,28 +340,43 @@ theorem cinvS_noconfig {y : SysS} (h : CInvS y) {s' : Sched} (hI' : Inv s') {id 
 
 /-! ### operations which leave the searcher alone -/
 
-/-- within the contract `on_trial_complete` changes nothing at all: the observation it writes
-is already there (a NaN result only drops a pending evaluation, and there is none) -/
+/-- within the contract `on_trial_complete` changes neither the scheduler nor the data: a finite
+result is already there (the state stays the same), a NaN result finds nothing to drop and only
+marks the trial as failed -/
 theorem stepCS_complete {y : SysS} (h : CInvS y) (t r : Nat) (v : Metric) (hok : OpOKS y (.complete t r v)) :
-    stepCS y (.complete t r v) = y := by
+    ∃ st', st'.pending = y.st.pending ∧ st'.observed = y.st.observed ∧ st'.mode = y.st.mode ∧
+      (∀ x, v = .val x → st' = y.st) ∧
+      stepCS y (.complete t r v) = { sched := y.sched, st := st', last := y.last } := by
   have h1 : y.sched.step (.complete t r v) = .ok (y.sched, { calls := [SCall.update t r v true] }) := rfl
-  have h2 : applyActs y.st (([SCall.update t r v true]).map trCall) = .ok y.st := by
-    cases v with
-    | nan =>
-      have hnp : (t, r) ∉ y.st.pending := hok
+  cases v with
+  | nan =>
+    have hnp : (t, r) ∉ y.st.pending := hok
+    have h2 : applyActs y.st (([SCall.update t r .nan true]).map trCall) = .ok (markFailed y.st t) := by
       simp only [List.map_cons, List.map_nil, trCall, applyActs_single, applyAct, dropPending_not_mem t r _ hnp]
-    | val x =>
-      have hobs : obsAt y.st t r = some (y.st.crit x) := hok
-      have hlab : y.st.isLabeled t r = true := by rw [lab_iff, hobs]; rfl
-      have hnp : (t, r) ∉ y.st.pending := by
-        intro hp
-        have := pending_not_labeled h hp
-        simp only at this
-        rw [hlab] at this; cases this
+    refine ⟨markFailed y.st t, markFailed_pending _ _, markFailed_observed _ _, markFailed_mode _ _,
+      (fun x hx => by cases hx), ?_⟩
+    rw [stepCS_ok h1 h2]
+    rfl
+  | val x =>
+    have hobs : obsAt y.st t r = some (y.st.crit x) := hok
+    have hlab : y.st.isLabeled t r = true := by rw [lab_iff, hobs]; rfl
+    have hnp : (t, r) ∉ y.st.pending := by
+      intro hp
+      have := pending_not_labeled h hp
+      simp only at this
+      rw [hlab] at this; cases this
+    have h2 : applyActs y.st (([SCall.update t r (.val x) true]).map trCall) = .ok y.st := by
       simp only [List.map_cons, List.map_nil, trCall, applyActs_single, applyAct, apply_update_true]
       rw [label_noop _ _ _ _ hobs hnp]
-  rw [stepCS_ok h1 h2]
-  rfl
+    refine ⟨y.st, rfl, rfl, rfl, fun _ _ => rfl, ?_⟩
+    rw [stepCS_ok h1 h2]
+    rfl
+
+theorem cinvS_complete {y : SysS} (h : CInvS y) (t r : Nat) (v : Metric) (hok : OpOKS y (.complete t r v)) :
+    CInvS (stepCS y (.complete t r v)) := by
+  obtain ⟨st', hp, ho, hm, _, he⟩ := stepCS_complete h t r v hok
+  rw [he]
+  exact cinvS_st_congr (st := y.st) h hp ho hm
 
 theorem stepCS_remove (y : SysS) (t : Nat) : stepCS y (.remove t) = y := rfl
 
